@@ -203,9 +203,12 @@ func runNumeric(cs *fw.Case, r *prng.Rand) {
 			moved = true
 		}
 	}
+	_ = kind
 	if !moved {
 		// the optimiser gave up at the initial point and the estimator reported success
 		sigBase = fmt.Sprintf("C16|%s|%s|returned-initial-point", cs.Monitor, method)
+	} else {
+		sigBase = fmt.Sprintf("C16|%s|%s|moved", cs.Monitor, method)
 	}
 	if !(norm <= allow) {
 		cs.Violation(sigBase+"|not-stationary",
